@@ -39,39 +39,44 @@ impl RngCore for Script {
     }
 }
 
-/// `k` evenly spaced raw words covering [0, 2^64)
+/// `k` raw words, one inside each of `k` equal cells of [0, 2^64): the cell mid-points plus a small
+/// odd offset, so that for no `n <= k` a word sits on an outcome boundary of `random_range(0..n)`
+/// (rand 0.9 draws a second word for bias correction when the first one is on a boundary).
 pub fn grid(k: u64) -> Vec<u64> {
-    (0..k).map(|i| ((i as u128 * (1u128 << 64)) / k as u128) as u64).collect()
+    (0..k).map(|i| ((((2 * i as u128 + 1) << 63) / k as u128) + (1u128 << 40)) as u64).collect()
 }
 
-/// Checks the two facts the scripted source relies on, for the rand version actually linked:
-/// one word per draw, and a grid of k words reaches all k outcomes of `random_range(0..k)`.
+/// Checks the facts the scripted source relies on, for the rand version actually linked: for every
+/// n <= k <= 8, `grid(k)` reaches all n outcomes of `random_range(0..n)` and of a `WeightedIndex`
+/// with n equal weights, each draw consuming exactly one word; `random::<f64>()` consumes one word.
 pub fn selftest() -> Result<(), String> {
     for k in 1..=8u64 {
-        let mut seen = std::collections::BTreeSet::new();
-        for w in grid(k) {
-            let mut s = Script::new(vec![w]);
-            let v: usize = s.random_range(0..k as usize);
-            if s.draws() != 1 {
-                return Err(format!("random_range consumed {} words", s.draws()));
+        for n in 1..=k as usize {
+            let mut seen = std::collections::BTreeSet::new();
+            for w in grid(k) {
+                let mut s = Script::new(vec![w]);
+                let v: usize = s.random_range(0..n);
+                if s.draws() != 1 {
+                    return Err(format!("random_range(0..{n}) consumed {} words for grid({k}) word {w:#x}", s.draws()));
+                }
+                seen.insert(v);
             }
-            seen.insert(v);
-        }
-        if seen.len() != k as usize {
-            return Err(format!("grid({k}) reached only {:?} of random_range(0..{k})", seen));
-        }
-        let mut seen = std::collections::BTreeSet::new();
-        for w in grid(k) {
-            let mut s = Script::new(vec![w]);
-            let dist = rand::distr::weighted::WeightedIndex::new(vec![1.0f64; k as usize]).unwrap();
-            let v: usize = s.sample(dist);
-            if s.draws() != 1 {
-                return Err(format!("WeightedIndex consumed {} words", s.draws()));
+            if seen.len() != n {
+                return Err(format!("grid({k}) reached only {seen:?} of random_range(0..{n})"));
             }
-            seen.insert(v);
-        }
-        if seen.len() != k as usize {
-            return Err(format!("grid({k}) reached only {:?} of WeightedIndex({k})", seen));
+            let mut seen = std::collections::BTreeSet::new();
+            for w in grid(k) {
+                let mut s = Script::new(vec![w]);
+                let dist = rand::distr::weighted::WeightedIndex::new(vec![1.0f64; n]).unwrap();
+                let v: usize = s.sample(dist);
+                if s.draws() != 1 {
+                    return Err(format!("WeightedIndex({n}) consumed {} words", s.draws()));
+                }
+                seen.insert(v);
+            }
+            if seen.len() != n {
+                return Err(format!("grid({k}) reached only {seen:?} of WeightedIndex({n})"));
+            }
         }
     }
     let mut s = Script::new(vec![u64::MAX / 2]);
